@@ -125,7 +125,11 @@ func (w *World) rulesV4ScoreRest(m *scoreModel, modFn *types.Func, add func(ok b
 	}
 	sort.Strings(keys)
 	entry := map[string]map[types.Object]Val{}
+	undecidedPrefix := false
 	for _, key := range keys {
+		if undecidedPrefix {
+			break
+		}
 		ce := newCEnv(p, make([]uint8, len(p.Fields)))
 		ce.ratArith = true
 		k := key
@@ -161,7 +165,8 @@ func (w *World) rulesV4ScoreRest(m *scoreModel, modFn *types.Func, add func(ok b
 				if pe, ok := err.(*panicked); ok {
 					add(false, "R04.nlm", "Score.key["+key+"]", s, fmt.Sprintf("for MacroVector %s the next-lower computation panics: %s (at %s) — a guard lets a lookup leave the table", key, pe.msg, p.posAt(pe.pos)))
 				} else {
-					add(false, "R04.nlm", "Score.key["+key+"]", s, "cannot evaluate the loop-free prefix (undecided): "+err.Error())
+					add(false, "R04.nlm", "Score.prefix", s, "cannot evaluate the loop-free prefix (undecided): "+err.Error())
+					undecidedPrefix = true
 				}
 				break
 			}
